@@ -22,7 +22,7 @@ let err_name e = match e with
   | EEof -> "EOF" | EInjected -> "INJECTED" | EUnexpEof -> "UNEXPECTED_EOF" | EBadDigest -> "BAD_DIGEST"
   | ETrailing -> "TRAILING" | EMismatch -> "MISMATCH" | EEarly -> "EARLY" | EInvalidSize -> "INVALID_SIZE"
   | EExists -> "EXISTS" | ETooBig -> "TOO_BIG" | ENotFound -> "NOT_FOUND" | EDupName -> "DUP_NAME"
-  | EFuel -> "FUEL"
+  | EFuel -> "FUEL" | EWrite -> "WRITE" | EShortWrite -> "SHORT_WRITE" | ETraversal -> "TRAVERSAL"
 let res_name e = match e with None -> "OK" | Some e -> err_name e
 
 let parse_script (s : string) : ev list =
@@ -66,6 +66,14 @@ let () =
       let h = mk_h (parse_hashes hs) and evs = parse_script sc and comb = (comb = "1") in
       let ((e, out), v) = copy_buffer h comb fixed (fuel_of evs) (base_of evs lim) (nat_of_int (int_of_string bufsz))
           (str_of_hex dg) (z_of_int (int_of_string sz)) in
+      let delivered = total evs - total v.v_base.b_evs in
+      Printf.printf "%s %s %d W%s\n" id (res_name e) delivered (digest_str out)
+    | [id; "CW"; hs; bufsz; dg; sz; comb; lim; sc; wmode; wat] ->
+      (* CopyBuffer into a destination that fails / short-writes after <wat> bytes *)
+      let h = mk_h (parse_hashes hs) and evs = parse_script sc and comb = (comb = "1") in
+      let w = { w_mode = Some (if wmode = "short" then WShort else WFail); w_left = nat_of_int (int_of_string wat) } in
+      let (((e, out), v), _) = copy_buffer_w h comb fixed (fuel_of evs) (base_of evs lim) (nat_of_int (int_of_string bufsz))
+          (str_of_hex dg) (z_of_int (int_of_string sz)) w in
       let delivered = total evs - total v.v_base.b_evs in
       Printf.printf "%s %s %d W%s\n" id (res_name e) delivered (digest_str out)
     | [id; "VR"; hs; dg; sz; comb; sc; ops] ->
